@@ -301,6 +301,7 @@ META["C05"] = dict(
     rule="channels: a case is (multiset of argument type skeletons, valid | near-miss class, set of channels run); modes: "
     "(type skeletons, modes run). Distinct by hash; non-trivial = at least two channels reached a decision.",
     gates={
+        "st.partial_class_settings_over_default_spec": g(30, 300),
         "st.argv_subkey_spelling": g(100, 1000),
         "mon.channel_pairs_compared": g(4000, 40000),
         "mon.pair.argv.options_eq": g(300, 3000), "mon.pair.env": g(300, 3000), "mon.pair.argv.cfg_file": g(400, 4000),
